@@ -156,8 +156,18 @@ class Gen:
             if t.draw(4, "coll") != 0:
                 return self.collection()
             return self.leaf()
-        kind = t.draw(12, "skind")
+        kind = t.draw(13, "skind")
         n = 1 + t.draw(3, "n")
+        if kind == 12:
+            # a generator that builds a fresh temporary record per element (the records die as soon as
+            # they are unpacked, so their addresses are reused)
+            m = 3 + t.draw(4, "gn")
+            items = [self.node(depth + 1) for _ in range(m)]
+            xs, es = [i[0] for i in items], [i[1] for i in items]
+            self.desc.append(["struct", 12, m])
+            gen = ([x, j] if j % 2 else (x, j) for j, x in enumerate(xs))
+            self.iters[id(gen)] = xs
+            return gen, [[e, j] if j % 2 else (e, j) for j, e in enumerate(es)]
         if kind == 10:
             # dict whose key is, or contains, a (hashable) collection; dict keys are traversed too
             a, b = t.draw(50, "da"), t.draw(50, "db")
@@ -307,8 +317,10 @@ def run_one(tape, cfg):
         op = tape.weighted([(3, "compute"), (2, "persist"), (2, "optimize")], "op")
         traverse = not tape.chance(1, 4, "traverse_off")
         optimize_graph = not tape.chance(1, 3, "noopt")
-    if any(["struct", 6, n] in g.desc for n in (1, 2, 3)):
+    if any(d[:2] in (["struct", 6], ["struct", 12]) for d in g.desc):
         op = "compute"   # persist/optimize would consume an iterator before the follow-up compute
+    if any(d[:2] == ["struct", 12] for d in g.desc):
+        out.probe("generator_of_temporary_records")
     wl = {"desc": g.desc, "nargs": nargs, "op": op, "traverse": traverse, "optimize_graph": optimize_graph}
     out.decoded = wl
     g.ncoll = sum(g.count(a) for a in args)      # what is really inside the arguments
@@ -320,7 +332,7 @@ def run_one(tape, cfg):
     if not traverse:
         out.probe("traverse_off")
     digests, runs = [], []
-    has_iter = any(["struct", 6, n] in g.desc for n in (1, 2, 3))
+    has_iter = any(d[:2] in (["struct", 6], ["struct", 12]) for d in g.desc)
 
     def sched(i):
         """(scheduler argument, SimRun or None)"""
